@@ -85,7 +85,11 @@ def run_call(name, idx, seed_kw, timeout=10):
     """call under a wall-clock alarm: a call that does not return is an outcome (and a violation), never a hang"""
     st, out = guarded(stb.call, name, idx, seed_kw, _timeout=timeout)
     if st == 'timeout':
-        return NoReturn('call did not return within %ds' % timeout)
+        # a loaded machine can make a legitimate call slow: only a call that also fails a much longer second
+        # attempt counts as not returning
+        st, out = guarded(stb.call, name, idx, seed_kw, _timeout=30 * timeout)
+        if st == 'timeout':
+            return NoReturn('call did not return within %ds' % (30 * timeout))
     return out
 
 
